@@ -237,6 +237,10 @@ func GenOpFor(ch *core.Chooser, hosts []string, kinds []int, lines []string) Op 
 			v = v[:j]
 		}
 		src := firstHost(v)
+		if strings.HasSuffix(src, ".*") {
+			// $domain=name.* : the page is on name.<some public suffix>
+			src = []string{"", "www."}[ch.Intn("q.srcwww", 2)] + strings.TrimSuffix(src, "*") + []string{"co.uk", "uk", "com", "com.au", "org"}[ch.Intn("q.srcsuffix", 5)]
+		}
 		k := OpWeb
 		if allowed(OpMatchAll) && ch.Intn("q.derivekind", 3) == 2 {
 			k = OpMatchAll
